@@ -51,6 +51,20 @@ impl Scenario for C20S {
                 })
             })
             .collect();
+        if r.chance(1, 4) {
+            // focused family: few streams converted from two threads back to back while traffic for
+            // an already parked consumer is in flight - the window in which a wake-up for the routing
+            // thread can be coalesced with, or overtaken by, another conversion
+            let k = r.range(3, 5);
+            let streams: Vec<Value> = (0..k)
+                .map(|i| {
+                    json!({"pre": if i == 0 { 0 } else { r.range(0, 3) }, "post": if i == 0 { r.range(1, 4) } else { r.below(3) }, "gap_us": 0, "hold": r.chance(1, 4),
+                           "consumer": if i == 0 { "manual" } else { *r.pick(&["block_on", "manual"]) }, "drop_after": Value::Null,
+                           "thread": if i + 1 == k { 1 } else { 0 }, "big": false})
+                })
+                .collect();
+            return json!({"sim": sim, "streams": streams, "threads": 2});
+        }
         json!({"sim": sim, "streams": streams, "threads": nthreads})
     }
     #[cfg(not(feature = "asy"))]
